@@ -198,6 +198,18 @@ pub fn insens_family() -> Vec<String> {
             _ => cands.push(rule(&format!("i{}_c", i), Ty::Normal, cho(seq_of(vec![ins(), lit1("x")]), seq_of(vec![GE::Pos(bx(ins())), idn("ANY")])))),
         }
     }
+    // ranges whose bounds are not ASCII (2-, 3- and 4-byte bounds), and literals that put characters inside and outside them
+    // (and the Latin-1 characters of the bounds' first bytes) into the input alphabet
+    let ranges = [('\u{3b1}', '\u{3c9}'), ('\u{e0}', '\u{ff}'), ('a', '\u{e9}'), ('\u{4e00}', '\u{9fff}'), ('\u{1f600}', '\u{1f64f}'), ('\u{7f}', '\u{80}')];
+    for (i, (a, b)) in ranges.iter().enumerate() {
+        let rg = || GE::Range(*a, *b);
+        cands.push(rule(&format!("g{}_n", i), Ty::Normal, rg()));
+        cands.push(rule(&format!("g{}_a", i), Ty::Atomic, seq_of(vec![rep1(rg()), idn("EOI")])));
+        cands.push(rule(&format!("g{}_p", i), Ty::Compound, rep1(seq_of(vec![GE::Neg(bx(rg())), idn("ANY")]))));
+    }
+    for (i, l) in ["\u{3b2}", "\u{ce}", "\u{cf}", "\u{e4}", "\u{4e2d}", "\u{e4}\u{b8}", "\u{1f601}", "\u{f0}", "\u{7f}", "\u{80}", "z", "\u{3c9}", "\u{3ca}"].iter().enumerate() {
+        cands.push(rule(&format!("gl{}", i), Ty::Normal, lit1(l)));
+    }
     vec![pest_grammar(&keep_valid(vec![], cands))]
 }
 
